@@ -76,7 +76,9 @@ func NewRunner(
 // and cancel them.
 func (runner *Runner) Stop() {
 	jobrunner.Stop()
-	for _, v := range runner.raffle.runningJobs {
+	// getRunningJobs returns a copy taken under the raffle's lock. jobs that end while the
+	// runner stops remove themselves from the live map
+	for _, v := range runner.raffle.getRunningJobs() {
 		v.cancel()
 	}
 }
